@@ -350,6 +350,14 @@ func (m Manager) SetNodeResourceCapacity(ctx context.Context, nodename string, n
 				logger.Errorf(ctx, err, "failed to set node resource for node %+v", nodename)
 				return err
 			}
+			// report what was changed, so that the caller can undo it
+			for plugin, resp := range resps {
+				if resp == nil {
+					continue
+				}
+				before[plugin.Name()] = resp.Before
+				after[plugin.Name()] = resp.After
+			}
 			return nil
 		},
 		// rollback: set the rollback resource args in reverse
